@@ -100,7 +100,7 @@ impl Prop for C17 {
         true
     }
     fn random_cases(tier: Tier) -> u64 {
-        tier.pick(4_000, 400_000)
+        tier.pick(15_000, 400_000)
     }
     fn strategy(tier: Tier) -> BoxedStrategy<Case> {
         let max_sets = tier.pick(6usize, 40);
